@@ -562,6 +562,10 @@ where
 {
     fn drop(&mut self) {
         let w = self.w();
+        // the end of the transaction is a crash point too (after the last storage call)
+        if faults().crash_at != 0 && w.mon.calls + 1 == faults().crash_at && w.crash_img.is_none() {
+            w.crash_img = Some(w.durable);
+        }
         w.mon.open -= 1;
         if !w.cur.committed {
             if w.cur.dirty {
